@@ -94,7 +94,7 @@ PROPS = {
 }
 
 
-ENGINE_PINS = ["PinChecks/PcBody_enf.v", "PinChecks/PcBody_model.v", "PinChecks/PcStoreGen.v", "PinChecks/PcInternalGen.v", "PinChecks/PcBody_adapters.v", "PinChecks/PcBody_fmgmtapi.v", "PinChecks/PcBody_frbacapi.v", "PinChecks/PcRoleGraph.v", "PinChecks/PcLiterals.v", "PinChecks/PcBody_fmacros.v"]
+ENGINE_PINS = ["PinChecks/PcBody_enf.v", "PinChecks/PcBody_model.v", "PinChecks/PcStoreGen.v", "PinChecks/PcInternalGen.v", "PinChecks/PcBody_adapters.v", "PinChecks/PcBody_fmgmtapi.v", "PinChecks/PcApiGen.v", "PinChecks/PcBody_frbacapi.v", "PinChecks/PcRoleGraph.v", "PinChecks/PcLiterals.v", "PinChecks/PcBody_fmacros.v"]
 ENGINE_NOTE = ("trusted: Coq kernel, extraction, harness; modelled not verified: hashlink LinkedHashSet/LinkedHashMap order (insert moves an existing entry "
                "to the back), petgraph adjacency order, rhai on the matcher fragment; adapters are modelled at the level of parsed lines (the CSV text level is "
                "C16/C09-text); every modelled function body is pinned by hash to the source it was aligned with")
@@ -278,7 +278,7 @@ PROPS.update({
 PROPS.update({
     "C11": {
         "coq": "Properties/C11.v",
-        "pinchecks": ENGINE_PINS + ["PinChecks/PcBody_fconvert.v"] + ["PinChecks/PcBody_fcachedenforcer.v", "PinChecks/PcBody_fdefaultcache.v", "PinChecks/PcBody_femitter.v", "PinChecks/PcCached.v"],
+        "pinchecks": ENGINE_PINS + ["PinChecks/PcBody_fconvert.v"] + ["PinChecks/PcBody_fcachedenforcer.v", "PinChecks/PcCachedGen.v", "PinChecks/PcBody_fdefaultcache.v", "PinChecks/PcBody_femitter.v", "PinChecks/PcCached.v"],
         "gen": "c11",
         "level_text": "Coq theorems over Model/Cached.v: cache coherence is an invariant of every history over the complete mutating surface and every request "
                       "(c11_coherent_reachable), a call that keeps the cache changes no decision (c11_noclear_no_change), the cached step refines the plain step "
@@ -314,7 +314,7 @@ PROPS.update({
 PROPS.update({
     "C20": {
         "coq": "Properties/C20.v",
-        "pinchecks": ["PinChecks/PcLocks.v", "PinChecks/PcBody_fmacros.v", "PinChecks/PcBody_frbacapi.v", "PinChecks/PcBody_enf.v", "PinChecks/PcBody_fcachedenforcer.v"] + ["PinChecks/PcBody_fdefaultcache.v", "PinChecks/PcCached.v", "PinChecks/PcRoleGraph.v"],
+        "pinchecks": ["PinChecks/PcLocks.v", "PinChecks/PcBody_fmacros.v", "PinChecks/PcBody_frbacapi.v", "PinChecks/PcBody_enf.v", "PinChecks/PcBody_fcachedenforcer.v", "PinChecks/PcCachedGen.v"] + ["PinChecks/PcBody_fdefaultcache.v", "PinChecks/PcCached.v", "PinChecks/PcRoleGraph.v"],
         "gen": "c20",
         "partial": "PARTIAL by nature: the theorems are about an abstract small-step semantics of two writer-preferring, non-re-entrant read-write locks and the "
                    "thread programs the code follows; that rustc / parking_lot / mini-moka / rhai implement those semantics (memory model, fairness, Send/Sync "
